@@ -24,7 +24,7 @@ from ..inproc import HEADER_FULL
 PROP = "C11"
 RULE = (
     "(a) exhaustive: all pairs of sequences over {a,b,c} with lengths <= 4 (quick) / <= 5 (thorough) through align+add_x under icontract post-conditions, plus random pairs "
-    "up to length 30 with duplicates; (b) generated files: list/tuple/dict/dataclass/namedtuple displays (nesting <= 4) whose leaves are hand-written expressions "
+    "up to length 30 with duplicates and pairs of 101-400 elements that differ by 1-3 edits at the front / middle / end; (b) generated files: list/tuple/dict/dataclass/namedtuple displays (nesting <= 4) whose leaves are hand-written expressions "
     "(0+1, int('2'), 'a' 'b', (3), len('xx') ...), observed value = old value with elements inserted/deleted/replaced in the middle, keys added/removed, fields changed; "
     "run with F={fix}; case = one guaranteed element (path); non-trivial = its container received at least one fix change; distinct = (container kind path, edit kinds, position class)."
 )
